@@ -1,27 +1,32 @@
-(* MV.Kernel.Frame — a reusable frame theorem for the kernel: let Ra be any reflexive, transitive relation between an
+(* MV.Kernel.FrameU — the frame theorem of Kernel.Frame with the relation indexed by the object's uid and a distinguished
+   running object u0: the updates the kernel applies only to the object whose message is being processed (status,
+   instance, children, accidents, watchers, graceful flag) need to be respected by Ra for u0 only; queue appends and the
+   suspension flag, which reach any object, for every uid.
+   (Kernel.Frame:) let Ra be any reflexive, transitive relation between an
    actor object and its later self that is respected by the elementary field updates the kernel performs (append to
    the user queue, append to the system queue, set the suspension flag, children, accident count, status, instance,
    watchers, graceful flag). Then every operation the kernel performs while processing one message (everything
    except taking the in-flight message out and the mailbox pop at the end of a step) relates every existing object to
    its successor by Ra, and no object disappears. Instantiated by Kernel.Queue (mailbox discipline). *)
-From MV Require Import Lib.ListX Kernel.Model Kernel.Lifecycle Kernel.Status.
+From MV Require Import Lib.ListX Kernel.Model Kernel.Lifecycle Kernel.Status Kernel.Frame.
 Open Scope Z_scope.
 
 Section F.
-Variable Ra : actor -> actor -> Prop.
-Hypothesis R_refl : forall a, Ra a a.
-Hypothesis R_trans : forall a b c, Ra a b -> Ra b c -> Ra a c.
-Hypothesis R_userq_app : forall a e, Ra a (w_userq (a_userq a ++ [e]) a).
-Hypothesis R_sysq_app : forall a e, Ra a (w_sysq (a_sysq a ++ [e]) a).
-Hypothesis R_susp : forall a b, Ra a (w_susp b a).
-Hypothesis R_children : forall a x, Ra a (w_children x a).
-Hypothesis R_accidents : forall a x, Ra a (w_accidents x a).
-Hypothesis R_st : forall a x, Ra a (w_st x a).
-Hypothesis R_inst : forall a x, Ra a (w_inst x a).
-Hypothesis R_watchers : forall a x, Ra a (w_watchers x a).
-Hypothesis R_graceful : forall a x, Ra a (w_graceful x a).
+Variable Ra : nat -> actor -> actor -> Prop.
+Variable u0 : nat.
+Hypothesis R_refl : forall v a, Ra v a a.
+Hypothesis R_trans : forall v a b c, Ra v a b -> Ra v b c -> Ra v a c.
+Hypothesis R_userq_app : forall v a e, Ra v a (w_userq (a_userq a ++ [e]) a).
+Hypothesis R_sysq_app : forall v a e, Ra v a (w_sysq (a_sysq a ++ [e]) a).
+Hypothesis R_susp : forall v a b, Ra v a (w_susp b a).
+Hypothesis R_children : forall a x, Ra u0 a (w_children x a).
+Hypothesis R_accidents : forall a x, Ra u0 a (w_accidents x a).
+Hypothesis R_st : forall a x, Ra u0 a (w_st x a).
+Hypothesis R_inst : forall a x, Ra u0 a (w_inst x a).
+Hypothesis R_watchers : forall a x, Ra u0 a (w_watchers x a).
+Hypothesis R_graceful : forall a x, Ra u0 a (w_graceful x a).
 
-Definition fr (s s' : kstate) : Prop := forall v a, get s v = Some a -> exists a', get s' v = Some a' /\ Ra a a'.
+Definition fr (s s' : kstate) : Prop := forall v a, get s v = Some a -> exists a', get s' v = Some a' /\ Ra v a a'.
 
 Lemma fr_refl s : fr s s.
 Proof. intros v a H. exists a. auto. Qed.
@@ -29,13 +34,13 @@ Lemma fr_trans s1 s2 s3 : fr s1 s2 -> fr s2 s3 -> fr s1 s3.
 Proof. intros H1 H2 v a Hg. destruct (H1 v a Hg) as (a2 & G2 & X2). destruct (H2 v a2 G2) as (a3 & G3 & X3). exists a3. split; [exact G3|eapply R_trans; eassumption]. Qed.
 Lemma fr_same_actors s s' : actors s' = actors s -> fr s s'.
 Proof. intros E v a Hg. exists a. unfold get in *. rewrite E. auto. Qed.
-Lemma fr_put s u a0 b : get s u = Some a0 -> Ra a0 b -> fr s (put s u b).
+Lemma fr_put s u a0 b : get s u = Some a0 -> Ra u a0 b -> fr s (put s u b).
 Proof.
   intros Hu Hb v a Hg. destruct (Nat.eq_dec u v) as [->|Hne].
   - exists b. split; [eapply get_put_same; exact Hu|]. rewrite Hu in Hg. inversion Hg; subst. exact Hb.
   - exists a. split; [rewrite get_put_other by assumption; exact Hg|apply R_refl].
 Qed.
-Lemma fr_upd_actor s u f : (forall a, Ra a (f a)) -> fr s (upd_actor s u f).
+Lemma fr_upd_actor s u f : (forall a, Ra u a (f a)) -> fr s (upd_actor s u f).
 Proof. intros Hf. unfold upd_actor. destruct (get s u) as [a0|] eqn:E; [|apply fr_refl]. eapply fr_put; [exact E|apply Hf]. Qed.
 Lemma fr_append s x : fr s (set_actors s (actors s ++ [x])).
 Proof.
@@ -43,7 +48,7 @@ Proof.
   rewrite nth_error_app1; [exact Hg|]. apply nth_error_Some. congruence.
 Qed.
 
-Lemma fr_drop_child s u w : fr s (drop_child s u w).
+Lemma fr_drop_child s  w : fr s (drop_child s u0 w).
 Proof. unfold drop_child. destruct (lookup w (registry s)); [apply fr_refl|]. apply fr_upd_actor. intros a. apply R_children. Qed.
 Lemma fr_push_sys s u e : fr s (push_sys s u e).
 Proof. unfold push_sys. apply fr_upd_actor. intros a. destruct (e_msg e); try apply R_sysq_app; apply R_susp. Qed.
@@ -88,7 +93,7 @@ Proof.
   destruct (terminate s self t (a_graceful pa)) as [s1 o1] eqn:E. intros H; inversion H; subst. eapply fr_terminate; exact E.
 Qed.
 
-Lemma fr_spawn s u self t r s' o p : spawn s u self t r = (s', o, p) -> fr s s'.
+Lemma fr_spawn s  self t r s' o p : spawn s u0 self t r = (s', o, p) -> fr s s'.
 Proof.
   unfold spawn. destruct (provide s t) as [s1 inst] eqn:Ep.
   assert (K1 : fr s s1) by (apply fr_same_actors; unfold provide in Ep; inversion Ep; subst; reflexivity).
@@ -108,9 +113,9 @@ Qed.
 Section S.
 Variable roles : list role.
 
-Lemma fr_report_abnormal s u s' o p : report_abnormal roles s u = (s', o, p) -> fr s s'.
+Lemma fr_report_abnormal s  s' o p : report_abnormal roles s u0 = (s', o, p) -> fr s s'.
 Proof.
-  unfold report_abnormal. destruct (get s u) as [a|]; [|intros H; inversion H; subst; apply fr_refl].
+  unfold report_abnormal. destruct (get s u0) as [a|]; [|intros H; inversion H; subst; apply fr_refl].
   destruct (a_st a); try (intros H; inversion H; subst; apply fr_refl).
   intros H. apply fr_escalate in H. eapply fr_trans; [|exact H].
   eapply fr_trans; [|apply fr_deliver_sys]. apply fr_upd_actor. intros b. apply R_accidents.
@@ -126,9 +131,9 @@ Qed.
 Lemma fr_next_serial s : fr s (fst (next_serial s)).
 Proof. apply fr_same_actors. reflexivity. Qed.
 
-Lemma fr_do_action s u snd act s' o p : do_action roles s u snd act = (s', o, p) -> fr s s'.
+Lemma fr_do_action s  snd act s' o p : do_action roles s u0 snd act = (s', o, p) -> fr s s'.
 Proof.
-  unfold do_action. destruct (get s u) as [a|]; [|intros H; inversion H; subst; apply fr_refl].
+  unfold do_action. destruct (get s u0) as [a|]; [|intros H; inversion H; subst; apply fr_refl].
   destruct act.
   - destruct (next_serial s) as [s1 k] eqn:En. destruct (deliver_user s1 t rNone (UProbe n k)) as [s2 o2] eqn:E.
     intros H; inversion H; subst. eapply fr_trans; [|eapply fr_deliver_user; exact E]. change s1 with (fst (s1, k)). rewrite <- En. apply fr_next_serial.
@@ -138,34 +143,34 @@ Proof.
     intros H; inversion H; subst. eapply fr_trans; [|eapply fr_deliver_user; exact E]. change s1 with (fst (s1, k)). rewrite <- En. apply fr_next_serial.
   - destruct (next_serial s) as [s1 k] eqn:En. destruct (send_each s1 (a_tok a) (a_children a) n k) as [s2 o2] eqn:E.
     intros H; inversion H; subst. eapply fr_trans; [|eapply fr_send_each; exact E]. change s1 with (fst (s1, k)). rewrite <- En. apply fr_next_serial.
-  - destruct (spawn s u (a_tok a) t r) as [[s1 o1] p1] eqn:E. intros H; inversion H; subst. eapply fr_spawn; exact E.
+  - destruct (spawn s u0 (a_tok a) t r) as [[s1 o1] p1] eqn:E. intros H; inversion H; subst. eapply fr_spawn; exact E.
   - destruct (terminate s (a_tok a) t g) as [s1 o1] eqn:E. intros H; inversion H; subst. eapply fr_terminate; exact E.
   - intros H; inversion H; subst. apply fr_deliver_sys.
   - intros H; inversion H; subst. apply fr_deliver_sys.
-  - destruct (report_abnormal roles s u) as [[s1 o1] p1] eqn:E. intros H; inversion H; subst. eapply fr_report_abnormal; exact E.
+  - destruct (report_abnormal roles s u0) as [[s1 o1] p1] eqn:E. intros H; inversion H; subst. eapply fr_report_abnormal; exact E.
   - intros H; inversion H; subst. apply fr_refl.
 Qed.
-Lemma fr_do_actions acts : forall s u snd s' o p, do_actions roles s u snd acts = (s', o, p) -> fr s s'.
+Lemma fr_do_actions acts : forall s snd s' o p, do_actions roles s u0 snd acts = (s', o, p) -> fr s s'.
 Proof.
-  induction acts as [|act rest IH]; intros s u snd s' o p; cbn [do_actions].
+  induction acts as [|act rest IH]; intros s snd s' o p; cbn [do_actions].
   - intros H; inversion H; subst. apply fr_refl.
   - apply (bind_rel fr); [apply fr_trans| |].
     + intros s1 o1 p1 E. eapply fr_do_action; exact E.
     + intros s1 s2 o2 p2 E. eapply IH; exact E.
 Qed.
-Lemma fr_handle_q q s u t k snd s' o p : handle_q roles q s u t k snd = (s', o, p) -> fr s s'.
+Lemma fr_handle_q q s  t k snd s' o p : handle_q roles q s u0 t k snd = (s', o, p) -> fr s s'.
 Proof.
-  unfold handle_q. destruct (get s u) as [a|]; [|intros H; inversion H; subst; apply fr_refl].
+  unfold handle_q. destruct (get s u0) as [a|]; [|intros H; inversion H; subst; apply fr_refl].
   destruct q; [intros H; inversion H; subst; apply fr_refl|].
-  destruct (do_actions roles s u snd (find_rule (rules (role_of roles a)) t (a_inst a))) as [[s1 o1] p1] eqn:E.
+  destruct (do_actions roles s u0 snd (find_rule (rules (role_of roles a)) t (a_inst a))) as [[s1 o1] p1] eqn:E.
   intros H; inversion H; subst. eapply fr_do_actions; exact E.
 Qed.
-Lemma fr_handle s u t k snd s' o p : handle roles s u t k snd = (s', o, p) -> fr s s'.
-Proof. unfold handle. destruct (get s u) as [a|]; [apply fr_handle_q|intros H; inversion H; subst; apply fr_refl]. Qed.
+Lemma fr_handle s  t k snd s' o p : handle roles s u0 t k snd = (s', o, p) -> fr s s'.
+Proof. unfold handle. destruct (get s u0) as [a|]; [apply fr_handle_q|intros H; inversion H; subst; apply fr_refl]. Qed.
 
-Lemma fr_try_terminated s u snd s' o p : try_terminated roles s u snd = (s', o, p) -> fr s s'.
+Lemma fr_try_terminated s  snd s' o p : try_terminated roles s u0 snd = (s', o, p) -> fr s s'.
 Proof.
-  unfold try_terminated. destruct (get s u) as [a|] eqn:Ea; [|intros H; inversion H; subst; apply fr_refl].
+  unfold try_terminated. destruct (get s u0) as [a|] eqn:Ea; [|intros H; inversion H; subst; apply fr_refl].
   destruct (a_children a); [|intros H; inversion H; subst; apply fr_refl].
   destruct (a_st a) eqn:Est; try (intros H; inversion H; subst; apply fr_refl).
   apply (bind_rel fr); [apply fr_trans| |].
@@ -174,16 +179,16 @@ Proof.
     + eapply fr_trans; [|apply fr_same_actors; reflexivity]. eapply fr_trans; [|apply fr_notify_all]. apply fr_set_registry.
     + eapply fr_trans; [|apply fr_deliver_sys]. eapply fr_trans; [|apply fr_notify_all]. apply fr_set_registry.
 Qed.
-Lemma fr_start_instance s u self parent s' o p : start_instance roles s u self parent = (s', o, p) -> fr s s'.
+Lemma fr_start_instance s  self parent s' o p : start_instance roles s u0 self parent = (s', o, p) -> fr s s'.
 Proof.
-  unfold start_instance. destruct (handle roles s u TRD 0%nat self) as [[s1 o1] p1] eqn:E1.
-  destruct (handle roles s1 u TL 0%nat parent) as [[s2 o2] p2] eqn:E2. intros H; inversion H; subst.
+  unfold start_instance. destruct (handle roles s u0 TRD 0%nat self) as [[s1 o1] p1] eqn:E1.
+  destruct (handle roles s1 u0 TL 0%nat parent) as [[s2 o2] p2] eqn:E2. intros H; inversion H; subst.
   eapply fr_trans; [eapply fr_handle; exact E1|]. eapply fr_trans; [eapply fr_handle; exact E2|].
   destruct p2; [apply fr_refl|apply fr_upd_actor; intros b; apply R_accidents].
 Qed.
-Lemma fr_try_restarted s u snd s' o p : try_restarted roles s u snd = (s', o, p) -> fr s s'.
+Lemma fr_try_restarted s  snd s' o p : try_restarted roles s u0 snd = (s', o, p) -> fr s s'.
 Proof.
-  unfold try_restarted. destruct (get s u) as [a|] eqn:Ea; [|intros H; inversion H; subst; apply fr_refl].
+  unfold try_restarted. destruct (get s u0) as [a|] eqn:Ea; [|intros H; inversion H; subst; apply fr_refl].
   destruct (a_children a); [|intros H; inversion H; subst; apply fr_refl].
   destruct (a_st a) eqn:Est; try (intros H; inversion H; subst; apply fr_refl).
   apply (bind_rel fr); [apply fr_trans| |].
@@ -192,31 +197,31 @@ Proof.
     + intros sa oa pa E. eapply fr_handle; exact E.
     + intros sa sb ob pb. destruct (provide sa (a_tok a)) as [s3 inst] eqn:Ep. intros H.
       eapply fr_trans; [|eapply fr_start_instance; exact H]. eapply fr_trans; [|apply fr_deliver_sys].
-      eapply fr_trans; [|apply fr_upd_actor; intros b; apply (R_trans b (w_inst inst b)); [apply R_inst|apply R_st]].
+      eapply fr_trans; [|apply fr_upd_actor; intros b; apply (R_trans u0 b (w_inst inst b)); [apply R_inst|apply R_st]].
       apply fr_same_actors; unfold provide in Ep; inversion Ep; subst; reflexivity.
 Qed.
-Lemma fr_apply_directive s u r d snd s' o p : apply_directive roles s u r d snd = (s', o, p) -> fr s s'.
+Lemma fr_apply_directive s  r d snd s' o p : apply_directive roles s u0 r d snd = (s', o, p) -> fr s s'.
 Proof.
-  unfold apply_directive. destruct (get s u) as [a|]; [|intros H; inversion H; subst; apply fr_refl].
+  unfold apply_directive. destruct (get s u0) as [a|]; [|intros H; inversion H; subst; apply fr_refl].
   destruct d.
   - intros H; inversion H; subst. apply fr_deliver_sys.
   - destruct (terminate s (a_tok a) (ar_vref r) false) as [s1 o1] eqn:E1.
-    destruct (try_terminated roles s1 u snd) as [[s2 o2] p2] eqn:E2. intros H; inversion H; subst.
+    destruct (try_terminated roles s1 u0 snd) as [[s2 o2] p2] eqn:E2. intros H; inversion H; subst.
     eapply fr_trans; [eapply fr_terminate; exact E1|eapply fr_try_terminated; exact E2].
   - intros H; inversion H; subst. apply fr_deliver_sys.
-  - destruct (escalate s u r) as [[s1 o1] p1] eqn:E. intros H; inversion H; subst. eapply fr_escalate; exact E.
+  - destruct (escalate s u0 r) as [[s1 o1] p1] eqn:E. intros H; inversion H; subst. eapply fr_escalate; exact E.
   - intros H; inversion H; subst. apply fr_restart_all.
 Qed.
-Lemma fr_on_accident s u r snd s' o p : on_accident roles s u r snd = (s', o, p) -> fr s s'.
+Lemma fr_on_accident s  r snd s' o p : on_accident roles s u0 r snd = (s', o, p) -> fr s s'.
 Proof.
-  unfold on_accident. destruct (get s u) as [a|]; [|intros H; inversion H; subst; apply fr_refl].
+  unfold on_accident. destruct (get s u0) as [a|]; [|intros H; inversion H; subst; apply fr_refl].
   destruct (ar_strategy r); [apply fr_apply_directive|].
   destruct (sup (role_of roles a)); [apply fr_escalate|apply fr_apply_directive].
 Qed.
 
-Lemma fr_process_sys s u e s' o p : process_sys roles s u e = (s', o, p) -> fr s s'.
+Lemma fr_process_sys s  e s' o p : process_sys roles s u0 e = (s', o, p) -> fr s s'.
 Proof.
-  unfold process_sys. destruct (get s u) as [a|] eqn:Ea; [|intros H; inversion H; subst; apply fr_refl].
+  unfold process_sys. destruct (get s u0) as [a|] eqn:Ea; [|intros H; inversion H; subst; apply fr_refl].
   match goal with |- context [if ?d then _ else _] => destruct d end; [intros H; inversion H; subst; apply fr_refl|].
   destruct (e_msg e).
   - apply (bind_rel fr); [apply fr_trans| |].
@@ -224,32 +229,32 @@ Proof.
     + intros s1 s2 o2 p2 H; inversion H; subst. apply fr_upd_actor. intros b. apply R_accidents.
   - apply fr_handle.
   - assert (HT : forall s0, fr s s0 ->
-      (handle roles s0 u TT 0%nat (e_snd e) >>= (fun s3 =>
-         match get s3 u with
+      (handle roles s0 u0 TT 0%nat (e_snd e) >>= (fun s3 =>
+         match get s3 u0 with
          | None => ok s3 []
          | Some a3 =>
              let '(s4, o4) := terminate_all s3 (a_tok a3) (a_children a3) (g || a_graceful a3) in
-             let '(s5, o5, p) := try_terminated roles s4 u (e_snd e) in (s5, o4 ++ o5, p)
+             let '(s5, o5, p) := try_terminated roles s4 u0 (e_snd e) in (s5, o4 ++ o5, p)
          end)) = (s', o, p) -> fr s s').
     { intros s0 M0 H. eapply fr_trans; [exact M0|]. revert H. apply (bind_rel fr); [apply fr_trans| |].
       - intros s1 o1 p1 E. eapply fr_handle; exact E.
-      - intros s1 s2 o2 p2. destruct (get s1 u) as [a3|]; [|intros H; inversion H; subst; apply fr_refl].
+      - intros s1 s2 o2 p2. destruct (get s1 u0) as [a3|]; [|intros H; inversion H; subst; apply fr_refl].
         destruct (terminate_all s1 (a_tok a3) (a_children a3) (g || a_graceful a3)) as [s4 o4] eqn:E4.
-        destruct (try_terminated roles s4 u (e_snd e)) as [[s5 o5] p5] eqn:E5. intros H; inversion H; subst.
+        destruct (try_terminated roles s4 u0 (e_snd e)) as [[s5 o5] p5] eqn:E5. intros H; inversion H; subst.
         eapply fr_trans; [eapply fr_terminate_all; exact E4|eapply fr_try_terminated; exact E5]. }
     destruct (a_st a) eqn:Est; try (intros H; inversion H; subst; apply fr_refl); apply HT;
-      (apply fr_trans with (s2 := upd_actor s u (w_st Terminating)); [apply fr_upd_actor; intros b; apply R_st|apply fr_deliver_sys]).
+      (apply fr_trans with (s2 := upd_actor s u0 (w_st Terminating)); [apply fr_upd_actor; intros b; apply R_st|apply fr_deliver_sys]).
   - apply (bind_rel fr); [apply fr_trans| |].
     + intros s1 o1 p1 E. eapply fr_trans; [|eapply fr_handle; exact E]. apply fr_drop_child.
-    + intros s1 s2 o2 p2. destruct (get s1 u) as [a2|]; [|intros H; inversion H; subst; apply fr_refl].
+    + intros s1 s2 o2 p2. destruct (get s1 u0) as [a2|]; [|intros H; inversion H; subst; apply fr_refl].
       destruct (a_st a2); try (intros H; inversion H; subst; apply fr_refl); [apply fr_try_restarted|apply fr_try_terminated].
   - destruct (a_st a) eqn:Est; try (intros H; inversion H; subst; apply fr_refl).
-    intros H. apply fr_trans with (s2 := upd_actor s u (w_st Restarting)); [apply fr_upd_actor; intros b; apply R_st|]. revert H.
+    intros H. apply fr_trans with (s2 := upd_actor s u0 (w_st Restarting)); [apply fr_upd_actor; intros b; apply R_st|]. revert H.
     apply (bind_rel fr); [apply fr_trans| |].
     + intros s1 o1 p1 E. eapply fr_trans; [|eapply fr_handle; exact E]. apply fr_deliver_sys.
-    + intros s1 s2 o2 p2. destruct (get s1 u) as [a2|]; [|intros H; inversion H; subst; apply fr_refl].
+    + intros s1 s2 o2 p2. destruct (get s1 u0) as [a2|]; [|intros H; inversion H; subst; apply fr_refl].
       destruct (terminate_all s1 (a_tok a2) (a_children a2) false) as [s3 o3] eqn:E3.
-      destruct (try_restarted roles s3 u (e_snd e)) as [[s4 o4] p4] eqn:E4. intros H; inversion H; subst.
+      destruct (try_restarted roles s3 u0 (e_snd e)) as [[s4 o4] p4] eqn:E4. intros H; inversion H; subst.
       eapply fr_trans; [eapply fr_terminate_all; exact E3|eapply fr_try_restarted; exact E4].
   - apply fr_on_accident.
   - destruct (e_snd e =? a_parent a); [intros H; inversion H; subst; apply fr_refl|].
@@ -261,9 +266,9 @@ Proof.
   - intros H; inversion H; subst. apply fr_refl.
 Qed.
 
-Lemma fr_process_user s u e s' o p : process_user roles s u e = (s', o, p) -> fr s s'.
+Lemma fr_process_user s  e s' o p : process_user roles s u0 e = (s', o, p) -> fr s s'.
 Proof.
-  unfold process_user. destruct (get s u) as [a|]; [|intros H; inversion H; subst; apply fr_refl].
+  unfold process_user. destruct (get s u0) as [a|]; [|intros H; inversion H; subst; apply fr_refl].
   destruct (st_ge_terminating (a_st a)).
   - destruct (abyss_user s (e_snd e) (e_rcv e) (e_msg e)) as [s1 o1] eqn:E. intros H; inversion H; subst. eapply fr_abyss_user; exact E.
   - destruct (e_msg e).
@@ -272,27 +277,14 @@ Proof.
     + intros H; inversion H; subst. apply fr_refl.
 Qed.
 
-(* everything run_actor does after taking the in-flight message m out of the mailbox of u *)
-Definition run_inner (s0 : kstate) (u : nat) (m : anymsg) : kstate * list obs :=
-  let '(s1, o1, p) := match m with MS e => process_sys roles s0 u e | MU e => process_user roles s0 u e end in
-  if p then if crashed s1 then (s1, o1) else let '(s2, o2, _) := report_abnormal roles s1 u in (s2, o1 ++ o2) else (s1, o1).
-
-Lemma run_actor_inner s u a m : get s u = Some a -> a_inflight a = Some m ->
-  run_actor roles s u = Some (run_inner (upd_actor s u (w_inflight None)) u m).
+Lemma fr_run_inner s0 m s' o : Frame.run_inner roles s0 u0 m = (s', o) -> fr s0 s'.
 Proof.
-  intros Ha Hm. unfold run_actor, run_inner. rewrite Ha, Hm.
-  destruct (match m with MS e => _ | MU e => _ end) as [[s1 o1] p]. destruct p; [|reflexivity].
-  destruct (crashed s1); [reflexivity|]. destruct (report_abnormal roles s1 u) as [[s2 o2] p2]. reflexivity.
-Qed.
-
-Lemma fr_run_inner s0 u m s' o : run_inner s0 u m = (s', o) -> fr s0 s'.
-Proof.
-  unfold run_inner.
-  destruct (match m with MS e => process_sys roles s0 u e | MU e => process_user roles s0 u e end) as [[s1 o1] p] eqn:E.
+  unfold Frame.run_inner.
+  destruct (match m with MS e => process_sys roles s0 u0 e | MU e => process_user roles s0 u0 e end) as [[s1 o1] p] eqn:E.
   assert (F1 : fr s0 s1) by (destruct m; [eapply fr_process_sys; exact E|eapply fr_process_user; exact E]).
   destruct p; [|intros H; inversion H; subst; exact F1].
   destruct (crashed s1); [intros H; inversion H; subst; exact F1|].
-  destruct (report_abnormal roles s1 u) as [[s2 o2] p2] eqn:E2. intros H; inversion H; subst.
+  destruct (report_abnormal roles s1 u0) as [[s2 o2] p2] eqn:E2. intros H; inversion H; subst.
   eapply fr_trans; [exact F1|eapply fr_report_abnormal; exact E2].
 Qed.
 
